@@ -186,6 +186,8 @@ class Ctx:
         self.tlc_runs.append({"module": module, "note": note or "", "distinct": r.distinct, "generated": r.generated,
                               "depth": r.depth, "wall_s": round(r.wall, 2),
                               "mode": "simulate" if simulate else "exhaustive"})
+        if expect_ok and count and not simulate and r.distinct == 0 and ("SPECIFICATION" in open(cfgfile).read() or "INIT" in open(cfgfile).read()):
+            raise MachineryError(f"TLC explored no state of {module} ({note}): the model is vacuous")
         if expect_ok and (r.error or r.violated):
             tail = "\n".join(p.stdout.splitlines()[-60:])
             raise MachineryError(f"TLC failed on {module} ({note}): violated={r.violated}\n{tail}")
